@@ -15,6 +15,7 @@
 //   rows  <api> <dests> <fv> <logical response> <wire>   spec-backed: cells through scan|scanner|mapscan|slicemap
 //   rowsx <api> <dests> <fv> <logical response> <wire>   model-vs-code: nil destinations (KF-C04-3 on tuple columns), tuple<> columns, duplicate RowData names, malformed rows
 //   skip / skipx  end to end through a real Session on the in-memory cluster, see e2e.go
+//   reuse / reusex  typed destinations reused across the rows of a page, see reuse.go
 package main
 
 import (
@@ -256,6 +257,8 @@ func exec(op string) (res string) {
 		return execRows(w[1], w[2], atoi(w[3]), unhex(w[len(w)-1]))
 	case "skip", "skipx":
 		return execSkip(w)
+	case "reuse", "reusex":
+		return execReuseOp(w)
 	}
 	return "bad-op"
 }
